@@ -71,11 +71,13 @@ macro_rules! presized {
         };
         let before = caps(&tgt);
         for $v in batch.iter() {
-            let $r = &mut tgt;
-            let _ = $push;
+            {
+                let $r = &mut tgt;
+                let _ = $push;
+            }
+            // constant after EVERY push (a buffer that is dropped and later regrown to the same size is a reallocation too)
+            assert!(same_caps(before, caps(&tgt)), "C17: CAPACITY-CHANGED while pushing exactly the announced contents");
         }
-        let after = caps(&tgt);
-        assert!(same_caps(before, after), "C17: CAPACITY-CHANGED while pushing exactly the announced contents");
         cover!(true, "end reached");
         sym::forget((src, tgt, batch));
     }};
@@ -403,8 +405,8 @@ pub fn c17_owned_reserve_items_vec_form() {
     let before = caps(&t);
     for b in batch.iter() {
         let _ = t.push(b.to_vec());
+        assert!(same_caps(before, caps(&t)), "C17: CAPACITY-CHANGED when the announced contents arrive as owned vectors");
     }
-    assert!(same_caps(before, caps(&t)), "C17: CAPACITY-CHANGED when the announced contents arrive as owned vectors");
     // the same on a region that was populated and cleared (empty again, capacity retained)
     let mut u = OwnedRegion::<u8>::default();
     let _ = u.push(batch[2].as_slice());
@@ -412,6 +414,7 @@ pub fn c17_owned_reserve_items_vec_form() {
     u.reserve_items(batch.iter().map(|b| b.as_slice()));
     let before = caps(&u);
     let _ = u.push(batch[0].to_vec());
+    assert!(same_caps(before, caps(&u)), "C17: CAPACITY-CHANGED on a cleared, pre-sized region");
     let _ = u.push(batch[2].to_vec());
     assert!(same_caps(before, caps(&u)), "C17: CAPACITY-CHANGED on a cleared, pre-sized region");
     cover!(true, "end reached");
